@@ -896,18 +896,20 @@ def ops_eval(ctx, R):
         # ---- movefilter
         for nm, d, res, st_ in (("A", "up", False, base), ("A", "down", True, [B, A, C]), ("B", "up", True, [B, A, C]), ("B", "down", True, [A, C, B]),
                                 ("C", "up", True, [A, C, B]), ("C", "down", False, base), ("Z", "up", False, base), ("Z", "down", False, base)):
-            expect("O3", "movefilter", "%r, %r" % (nm, d), run("movefilter", nm, d), "return", res, st_,
+            expect("O4" if nm == "Z" else "O3", "movefilter", "%r, %r" % (nm, d), run("movefilter", nm, d), "return", res, st_,
                    "moving a filter skips a position, wraps around the end of the list or leaves it in place")
         # ---- removefilter
-        for nm, res, st_ in (("A", True, [B, C]), ("B", True, [A, C]), ("C", True, [A, B]), ("Z", False, base)):
+        for nm, res, st_ in (("A", True, [B, C]), ("B", True, [A, C]), ("C", True, [A, B]), ("Z", False, base), ("", False, base)):
             expect("O4", "removefilter", repr(nm), run("removefilter", nm), "return", res, st_, "an operation on an unknown name modifies another filter")
         # ---- disable / enable
         A_off = ("A", False, ("wrapped", (A[2],)), A[3])
         B_on = ("B", True, ("plain", "B0"), B[3])
         for nm, res, st_ in (("A", True, [A_off, B, C]), ("B", False, base), ("Z", False, base)):
-            expect("O5", "disablefilter", repr(nm), run("disablefilter", nm), "return", res, st_, "flag and rendering disagree, or a filter is wrapped twice")
+            expect("O4" if nm == "Z" else "O5", "disablefilter", repr(nm), run("disablefilter", nm), "return", res, st_,
+                   "flag and rendering disagree, or a filter is wrapped twice")
         for nm, res, st_ in (("B", True, [A, B_on, C]), ("A", False, base), ("Z", False, base)):
-            expect("O5", "enablefilter", repr(nm), run("enablefilter", nm), "return", res, st_, "flag and rendering disagree, or an enabled filter loses its body")
+            expect("O4" if nm == "Z" else "O5", "enablefilter", repr(nm), run("enablefilter", nm), "return", res, st_,
+                   "flag and rendering disagree, or an enabled filter loses its body")
         # two filters disabled one after the other: each wrapper holds its own filter, and only that one
         r1 = run("disablefilter", "A")
         C_off = ("C", False, ("wrapped", (C[2],)), C[3])
